@@ -30,6 +30,13 @@ def main(ctx):
         for mc_, me in ((300, 0), (2000, 3)):
             long_behs.append({"fam": "mem", "sid": i, "rcfg": {"max_cache": mc_, "max_err": me, "obj_to": 0, "sess_to": 0, "once": False}, "sched": sched})
     recvlib.run_rx(ctx, long_specs, long_infos, long_behs, "memlong", chunk_size=2, limit_ms=4000)
+    # FDT instances that are complete but expired on arrival (receiver clock ahead, with and without sender current time),
+    # followed by a cleanup: the expiry family of C19, judged here for its memory conjuncts
+    especs = recvlib.gen_sessions(ctx, "exp")
+    einfos = recvlib.session_infos(ctx, especs, "exp")
+    ebehs = [b for b in recvlib.gen_chan(ctx, "expiry", einfos, maxn=99) if any(op[0] == "c" for op in b["sched"])]
+    ebehs = senderlib.sample(ebehs, 600 if quick else None, ctx.seed)
+    recvlib.run_rx(ctx, especs, einfos, ebehs, "expiry")
     for v in ctx.violations:
         if v.get("what", "").startswith("receiver-call-did-not-return"):
             v["property"] = "C17"
